@@ -58,6 +58,7 @@ func TestVerifC17Wire(t *testing.T) {
 		x.QUICVis = rapid.Bool().Draw(rt, "quicvis")
 		x.Perturb = genPerturb(rt, 3)
 		x.SlotFrac = rapid.SampledFrom([]float64{0, 0, 0.25, 0.5, 0.75, 1}).Draw(rt, "small_slot_frac")
+		genThresholds(rt, &x)
 		dir := caseDir("c17w")
 		defer os.RemoveAll(dir)
 		p, err := prepare(x, dir)
